@@ -343,6 +343,34 @@ pub fn convert_once(case: &Case) -> Result<(Vec<(String, Vec<i16>)>, String), St
             // A ring of 2..=4 structs (closed by an SREF or an AREF), entered from a top struct, listed in ring
             // order or reversed; plus a second, unrelated ring.
             use gds21::*;
+            if case.dup_layer_nums {
+                // no ring, but a struct name defined twice among four or five structs that only partly refer to each
+                // other: whatever the importer makes of it (a library or an error), it makes the same of it every time
+                let mk = |name: &str, k: i32, refs: &[&str]| {
+                    let mut st = GdsStruct::new(name);
+                    st.elems.push(GdsElement::GdsBoundary(GdsBoundary { layer: 1 + k as i16, datatype: 0, xy: GdsPoint::vec(&[(0, 0), (5 + k, 0), (5 + k, 5), (0, 5), (0, 0)]), ..Default::default() }));
+                    for r in refs {
+                        st.elems.push(GdsElement::GdsStructRef(GdsStructRef { name: r.to_string(), xy: GdsPoint::new(k, 2), ..Default::default() }));
+                    }
+                    st
+                };
+                let mut structs = vec![mk("dup_a", 0, &[]), mk("dup_b", 1, &[]), mk("dup_c", 2, &["dup_a"]), mk("dup_d", 3, &[])];
+                let again = ["dup_a", "dup_b", "dup_d"][case.perm % 3];
+                structs.push(mk(again, 4, &[]));
+                if case.two_ports {
+                    structs.push(mk("dup_e", 5, &["dup_b", "dup_d"]));
+                }
+                if case.two_cells {
+                    structs.reverse();
+                }
+                let mut g = GdsLibrary::new("dupnames");
+                g.units = GdsUnits::new(1e-3, 1e-9);
+                g.structs = structs;
+                return match Library::from_gds(&g, None) {
+                    Ok(lib) => Ok((vec![], format!("accepted (not judged here): {}", dump_raw(&lib)))),
+                    Err(x) => Ok((vec![], format!("Err: {x:?} / {x}"))),
+                };
+            }
             let n = 1 + case.port_layers.max(1);
             let names: Vec<String> = (0..n).map(|i| format!("ring_{}", (b'a' + i as u8) as char)).collect();
             let mut structs: Vec<GdsStruct> = vec![];
@@ -598,6 +626,18 @@ pub fn convert_once(case: &Case) -> Result<(Vec<(String, Vec<i16>)>, String), St
                         top.instances.add(Instance { inst_name: format!("iw{k}"), cell: w.clone(), loc: (6 + k as isize, 0).into(), reflect_horiz: false, reflect_vert: false });
                     }
                 }
+                // and several array instances (rows of three alphas), named in an order that is not alphabetical
+                for (k, name) in ["row_c", "row_a", "row_e", "row_b", "row_d"].iter().enumerate() {
+                    use tetris::array::{Array, ArrayInstance, Arrayable};
+                    use tetris::placement::{Placeable, SepBy, Separation};
+                    top.places.push(Placeable::Array(Ptr::new(ArrayInstance {
+                        name: name.to_string(),
+                        loc: (0, 6 + k as isize).into(),
+                        reflect_vert: false,
+                        reflect_horiz: false,
+                        array: Ptr::new(Array { name: "row".into(), unit: Arrayable::Instance(alpha.clone()), count: 3, sep: Separation::x(SepBy::UnitSpeced(tetris::coords::PrimPitches::x(4).into())) }),
+                    })));
+                }
                 let mut lib = TLib::new("tlib");
                 lib.cells.push(Ptr::new(Cell::from(top)));
                 lib.cells.push(alpha);
@@ -610,7 +650,19 @@ pub fn convert_once(case: &Case) -> Result<(Vec<(String, Vec<i16>)>, String), St
                     Err(e) => return Err(format!("tetris->raw conversion of a parent-first library failed: {e:?}")),
                     Ok(p) => {
                         let rl = p.read().map_err(|_| "lock".to_string())?;
-                        let names: Vec<String> = rl.cells.iter().map(|c| c.read().map(|c| c.name.clone()).unwrap_or_default()).collect();
+                        // cell names in order, and for each cell its instances in order
+                        let names: Vec<String> = rl
+                            .cells
+                            .iter()
+                            .map(|c| {
+                                c.read()
+                                    .map(|c| {
+                                        let insts: Vec<String> = c.layout.as_ref().map(|l| l.insts.iter().map(|i| format!("{}@{:?}", i.inst_name, (i.loc.x, i.loc.y))).collect()).unwrap_or_default();
+                                        format!("{} {:?}", c.name, insts)
+                                    })
+                                    .unwrap_or_default()
+                            })
+                            .collect();
                         format!("{names:?}")
                     }
                 }
@@ -792,7 +844,7 @@ impl CaseDriver for C20 {
     }
     fn describe(&self, _tier: Tier) -> Describe {
         Describe {
-            rule: "inputs: raw libraries with 1-2 abstract cells whose 1-2 ports carry shapes on 1-3 layers and whose blockages sit on 0/2/3 layers (unordered maps with 1-3 keys, every insertion order), 1-2 shapes per layer, plus a layout cell with elements on 3 layers x 2 purposes, an annotation and a reflected+rotated instance; LEF / protobuf / GDSII inputs derived from them in a fixed order. Conversions: raw->GDSII (bytes, dates pinned), raw->protobuf (prost bytes), raw->LEF (serde_json), LEF->raw->LEF, protobuf->raw->protobuf, GDSII->raw, raw->GDSII->raw, LEF text (no VERSION / 5.8 / 5.4, with or without END LIBRARY, with or without statements only versions <= 5.4 allow; a reader error is a result like any other)->raw->LEF, gridded layout->raw (raw results as an order-preserving dump; the gridded cell optionally holds two instances abutting along the tracks; and a cell with two port-relative net assignments on instances whose heap addresses swap between rebuilds), and two conversions whose result is an error - GDSII->raw on struct rings of 2..4 closed by SREF / AREF (optionally a second ring, either listing order) raw->protobuf on cell rings, raw->GDSII / raw->protobuf of an element whose layer does not define its purpose, raw->protobuf of an unnamed instance rotated by 22.5 degrees, LEF->raw->LEF with a supplied layer that has no name of its own and is indexed under 2..3 names the LEF uses, and gridded layout->raw of a cut lying under an instance / of two overlapping cuts - where the rendered error is the compared output. Configurations: every input is rebuilt / re-imported with fresh HashMaps until each of the k! iteration orders of every map the exporter walks has been observed on the very map objects (minimum 32, cap 4096 rebuilds; coverage measured and reported as tags), plus fresh OS processes, plus the same input once more after each of three *other* inputs went through the same conversion in the same process (no state carried from one library to the next); conversions that expose no map (GDSII->raw) are repeated 32 times - unordered containers internal to a converter cannot be enumerated, only exercised. Two of the three layers may share a layer number, and then the other layers also define each purpose under two numbers. A state is (input, conversion); non-trivial = some map has >= 2 keys.".into(),
+            rule: "inputs: raw libraries with 1-2 abstract cells whose 1-2 ports carry shapes on 1-3 layers and whose blockages sit on 0/2/3 layers (unordered maps with 1-3 keys, every insertion order), 1-2 shapes per layer, plus a layout cell with elements on 3 layers x 2 purposes, an annotation and a reflected+rotated instance; LEF / protobuf / GDSII inputs derived from them in a fixed order. Conversions: raw->GDSII (bytes, dates pinned), raw->protobuf (prost bytes), raw->LEF (serde_json), LEF->raw->LEF, protobuf->raw->protobuf, GDSII->raw, raw->GDSII->raw, LEF text (no VERSION / 5.8 / 5.4, with or without END LIBRARY, with or without statements only versions <= 5.4 allow; a reader error is a result like any other)->raw->LEF, gridded layout->raw (raw results as an order-preserving dump; the gridded cell optionally holds two instances abutting along the tracks; a parent-first library whose top cell also holds five array instances; and a cell with two port-relative net assignments on instances whose heap addresses swap between rebuilds), and two conversions whose result is an error - GDSII->raw on struct rings of 2..4 closed by SREF / AREF (optionally a second ring, either listing order) or on four to six structs one of whose names is defined twice, raw->protobuf on cell rings, raw->GDSII / raw->protobuf of an element whose layer does not define its purpose, raw->protobuf of an unnamed instance rotated by 22.5 degrees, LEF->raw->LEF with a supplied layer that has no name of its own and is indexed under 2..3 names the LEF uses, and gridded layout->raw of a cut lying under an instance / of two overlapping cuts - where the rendered error is the compared output. Configurations: every input is rebuilt / re-imported with fresh HashMaps until each of the k! iteration orders of every map the exporter walks has been observed on the very map objects (minimum 32, cap 4096 rebuilds; coverage measured and reported as tags), plus fresh OS processes, plus the same input once more after each of three *other* inputs went through the same conversion in the same process (no state carried from one library to the next); conversions that expose no map (GDSII->raw) are repeated 32 times - unordered containers internal to a converter cannot be enumerated, only exercised. Two of the three layers may share a layer number, and then the other layers also define each purpose under two numbers. A state is (input, conversion); non-trivial = some map has >= 2 keys.".into(),
             assumptions: vec!["an unordered map in the raw data model itself is rendered sorted (a map has no order); every ordered container must keep its order".into()],
             excluded: vec!["gridded layout -> raw is exercised on three stacks x a few cells only (the C08 alphabet is not re-enumerated here)".into()],
             technique: "exhaustive enumeration of hash-map iteration orders (observed on the real map objects) x inputs x conversions; outputs compared byte-for-byte within and across processes".into(),
